@@ -132,6 +132,61 @@ impl Monitor for C05 {
                 doc: None,
             };
         }
+        if matches!(pk, PK::Aag | PK::Aig) && rng.chance(1, 500) {
+            // the circuit-level entry point of aig.rs: a ring of 1..=24 gates (with side inputs and random
+            // polarities), reachable from an output, must be answered - FoundCycle - not descended into forever
+            let lt = cfg.lt;
+            let n_in = 1 + rng.usize(3);
+            let k = (1 + rng.usize(24)).min(((crate::gen::max_code(lt) - 1) / 2) as usize - n_in);
+            let mut g = crate::c12::Graph::default();
+            for i in 0..n_in {
+                g.inputs.push(2 * (i as u64 + 1));
+            }
+            let gate = |j: usize| 2 * (n_in + 1 + j) as u64;
+            for j in 0..k {
+                let next = gate((j + 1) % k) ^ rng.below(2);
+                let side = match rng.below(3) {
+                    0 => 1,
+                    1 => g.inputs[rng.usize(n_in)] ^ rng.below(2),
+                    _ => next,
+                };
+                g.ands.push(if rng.chance(1, 2) { (gate(j), next, side) } else { (gate(j), side, next) });
+            }
+            // file order of the gates is free
+            for i in (1..g.ands.len()).rev() {
+                let j = rng.usize(i + 1);
+                g.ands.swap(i, j);
+            }
+            g.m = (n_in + k) as u64;
+            g.outputs.push(gate(rng.usize(k)) ^ rng.below(2));
+            let opts = rng.below(8) as u8;
+            let win = Window::open();
+            let r = sut_caught(|| crate::c12::run(&g, lt, opts, &[]));
+            let peak = win.peak();
+            rep.inc("ring_circuits");
+            let mut problems: Vec<String> = vec![];
+            match r {
+                Err((msg, loc)) => problems.push(format!("panicked: {} at {}", msg, loc)),
+                Ok(crate::c12::RenRes::Err("FoundCycle", _)) => rep.inc("ring_circuits_answered_with_FoundCycle"),
+                Ok(crate::c12::RenRes::Err(other, l)) => problems.push(format!("answered with {} (literal {})", other, l)),
+                Ok(crate::c12::RenRes::Ok(_)) => problems.push("a circuit with a reachable cycle was renumbered".into()),
+            }
+            if peak > (2 << 20) {
+                problems.push(format!("peak live heap {} bytes for a circuit of {} gates", peak, k));
+            }
+            rep.nontrivial(H::new().u(5005).u(k as u64).u(opts as u64).u(lt as u64).get());
+            if !problems.is_empty() && !self.quiet {
+                rep.violation(
+                    "aig:ring_circuit",
+                    J::obj()
+                        .set("ring_of_gates", J::u(k))
+                        .set("renumber_options_bits", J::U(opts as u64))
+                        .set("and_gates", J::A(g.ands.iter().map(|a| J::s(format!("{} = {} & {}", a.0, a.1, a.2))).collect()))
+                        .set("output", J::U(g.outputs[0]))
+                        .set("problems", J::A(problems.into_iter().map(J::s).collect())),
+                );
+            }
+        }
         let bytes = &input.bytes;
         let len = bytes.len();
         let data = Rc::new(bytes.clone());
